@@ -194,6 +194,8 @@ def rk_step_unit(prop="C03"):
           # and its embedded error estimate per unit step is within the tolerance
           "res is Ok ==> old(self).stages_ok(final(self).half_steps.cols@, old(self).h())",
           "res is Ok ==> final(self).state@ == wsum(final(self).half_steps.cols@, vecr(old(self).avg_coefficients), O as int, old(self).state@)",
+          # C01: every yielded state has the problem's dimension
+          "res is Ok ==> res->Ok_0.1@.len() == old(self).state@.len()",
           "res is Ok ==> final(self).time@ == old(self).time@ + old(self).h() && res->Ok_0.0@ == final(self).time@ && res->Ok_0.1@ == final(self).state@",
           "res is Ok ==> vnorm(esum(final(self).half_steps.cols@, vecr(old(self).error_coefficients), O as int)) / old(self).h() <= old(self).tolerance@",
           # C01: ordered, inside the interval, gap-bounded
@@ -701,13 +703,14 @@ def adams_solver_unit(prop="C03"):
           # C01, all regimes: what the call did to (dt, yield_memory, time, history), case by case.  lemma_mclock (specs/ivpcommon.py) derives from
           # this summary and the history invariant that the YIELD CLOCK (time of the last point handed out) obeys the clock contract of
           # lemma_reaches_end, that every yielded point is the new clock value, and that it lies within dt_max of the previous one
+          "res is Ok ==> res->Ok_0.1@.len() == old(self).state@.len() && final(self).state@.len() == old(self).state@.len()",
           "mtrans(O as int, old(self).dt@, old(self).yield_memory as int, old(self).time@, old(self).end@, old(self).pv(), "
           "final(self).dt@, final(self).yield_memory as int, final(self).time@, final(self).pv(), res)")
     def A(x):
         return (f"O as int, true, {x}.dt@, {x}.dt_max@, {x}.yield_memory as int, {x}.time@, {x}.end@, {x}.pv(), {x}.pd(), {x}.save_state@.len(), {x}.state@, {x}.implicit_derivs@")
     g.hint("begin", "let ghost s0 = *self; proof { lemma_hist_basic(" + A("s0") + "); if !(s0.time@ >= s0.end@ && (s0.yield_memory == 0 || s0.yield_memory == O)) { lemma_hist_use(" + A("s0") + "); } }")
     # -- yield a start-up point
-    g.hint("before: return Ok(self.prev_values[get_item]", "proof { lemma_hist_yield(O as int, true, s0.dt@, s0.dt_max@, s0.yield_memory as int, self.yield_memory as int, s0.time@, s0.end@, s0.pv(), s0.pd(), s0.save_state@.len(), s0.state@, s0.implicit_derivs@); }")
+    g.hint("before: return Ok(self.prev_values[get_item]", "proof { lemma_hist_yield(O as int, true, s0.dt@, s0.dt_max@, s0.yield_memory as int, self.yield_memory as int, s0.time@, s0.end@, s0.pv(), s0.pd(), s0.save_state@.len(), s0.state@, s0.implicit_derivs@);  assert(entry_ok(s0.pv(), s0.pd(), get_item as int, s0.state@.len(), true)); }")
     # -- hand the first multistep point over
     g.hint("before: #1 return Ok((self.time.real(), self.state.clone()));", """proof {
             lemma_hist_handover(O as int, true, s0.dt@, s0.dt_max@, s0.time@, s0.end@, s0.pv(), s0.pd(), s0.save_state@.len(), s0.state@, s0.implicit_derivs@);
@@ -1065,10 +1068,11 @@ pub open spec fn fd_of(m: int, gf: spec_fn(real, Seq<real>) -> Seq<real>, tt: re
            "==> !(old(self).yield_memory == O + 1 && old(self).pv().len() == O)",
            "(old(self).yield_memory == 0 || old(self).yield_memory == O + 1) && res is Ok ==> old(self).time@ < res->Ok_0.0@ <= old(self).end@ && res->Ok_0.0@ - old(self).time@ <= old(self).dt_max@",
            # C01, all regimes: the transition summary that lemma_mclock (yield clock, specs/ivpcommon.py) is stated over; o = O + 1
+           "res is Ok ==> res->Ok_0.1@.len() == old(self).state@.len() && final(self).state@.len() == old(self).state@.len()",
            "mtrans(O as int + 1, old(self).dt@, old(self).yield_memory as int, old(self).time@, old(self).end@, old(self).pv(), "
            "final(self).dt@, final(self).yield_memory as int, final(self).time@, final(self).pv(), res)")
     st.hint("begin", "let ghost s0 = *self; proof { lemma_hist_basic(" + AB("s0") + "); if !(s0.time@ >= s0.end@ && (s0.yield_memory == 0 || s0.yield_memory == O + 1)) { lemma_hist_use(" + AB("s0") + "); } }")
-    st.hint("before: return Ok(self.prev_values[get_item]", "proof { lemma_hist_yield(O as int + 1, false, s0.dt@, s0.dt_max@, s0.yield_memory as int, self.yield_memory as int, s0.time@, s0.end@, s0.pv(), s0.pdb(), s0.save_state@.len(), s0.state@, s0.state@); }")
+    st.hint("before: return Ok(self.prev_values[get_item]", "proof { lemma_hist_yield(O as int + 1, false, s0.dt@, s0.dt_max@, s0.yield_memory as int, self.yield_memory as int, s0.time@, s0.end@, s0.pv(), s0.pdb(), s0.save_state@.len(), s0.state@, s0.state@);  assert(entry_ok(s0.pv(), s0.pdb(), get_item as int, s0.state@.len(), false)); }")
     st.hint("before: #1 return Ok((self.time.real(), self.state.clone()));", """proof {
             lemma_hist_handover(O as int + 1, false, s0.dt@, s0.dt_max@, s0.time@, s0.end@, s0.pv(), s0.pdb(), s0.save_state@.len(), s0.state@, s0.state@);
             assert(self.pv() =~= s0.pv().push((s0.time@, s0.state@)).drop_first());
